@@ -99,6 +99,14 @@ def r2(ctx, F):
     if not somes:
         ctx.missing('C11.R2', 'safe_join: Some return')
     root_i, rel_i = 1, 2
+    # the decision may go through the Option a helper returns (`match refusal(rel) { Some(_) => None, None => Some(join) }`
+    # written with is_none / is_some): the refusing arms then build a value instead of returning, and the path rules below do
+    # not follow a value through a predicate call - not decided (never a violation)
+    for qb, qt in fl.calls(lambda c: c.startswith('std::option::Option::<') and c.split('::')[-1] in ('is_none', 'is_some')):
+        oc_ = fl.outcomes(qb)
+        if any(es and all(cfg.edges_guard(es, sb) for sb in somes) for es in oc_.values()):
+            ctx.undecided('C11.R2', 'safe_join accepts a path on the is_none / is_some of what a refusal helper returned: that every dangerous component makes that helper refuse is not decided')
+            return
     abss = fl.calls_to('std::path::Path::is_absolute')
     comps = fl.calls_to('std::path::Path::components')
     nexts = fl.calls_to('std::iter::Iterator::next')
@@ -211,7 +219,59 @@ def closure_variant_results(cb, variant):
     return out if found else set()
 
 
+def refusal_reply_is_bounded(ctx, F, hub):
+    """'refused with an error reply ... the connection stays usable': the Error frame must be deliverable.  write_frame refuses a
+    frame over MAX_FRAME, and a handler that propagates that failure ends the session - so the text of an error reply must not
+    grow with a client-supplied string: a request path that reaches the reply is cut to a fixed length first (take / truncate /
+    get(..n)).  An echo of the whole path is reported."""
+    BOUND = ('take', 'truncate', 'get', 'split_at', 'chars_take', 'floor_char_boundary', 'nth')
+    n = 0
+    for h in HANDLERS:
+        hb = F.body(h)
+        if hb is None:
+            continue
+        for xb in [hb] + [x for x in F.nested(h) if x.path != hb.path]:
+            xfl = flow_of(xb)
+            for bi in xfl.cfg.reachable():
+                for st in xb.blocks[bi]['stmts']:
+                    rv = st['rv']
+                    if not (rv['k'] == 'agg' and rv.get('adt') == 'wire::Response' and rv.get('vname') == 'Error' and rv['ops']):
+                        continue
+                    n += 1
+                    # walk back from the payload; remember whether a bounding call was passed on the way
+                    work, seen_, hit = [(rv['ops'][0], False)], set(), None
+                    while work and len(seen_) < 400:
+                        cur, bounded = work.pop()
+                        if cur['k'] == 'const':
+                            continue
+                        for o in xfl.origins(cur, mut_calls=True):
+                            k_ = (o.kind, str(o.key), o.bb, bounded)
+                            if k_ in seen_:
+                                continue
+                            seen_.add(k_)
+                            if o.kind == 'param' and not bounded and 'str' in xb.local_ty(o.key) and TAINT in hub.param_label(xb, o.key):
+                                hit = hit or o
+                                continue
+                            if o.kind in ('call', 'mutcall') and o.bb is not None:
+                                last = str(o.key).split('::')[-1]
+                                b2 = bounded or last in BOUND
+                                work += [(a, b2) for a in xb.blocks[o.bb]['term'].get('args', []) if a['k'] != 'const']
+                            if o.kind == 'agg' and o.bb is not None:
+                                for s2 in xb.blocks[o.bb]['stmts']:
+                                    if s2['rv']['k'] == 'agg':
+                                        work += [(a, bounded) for a in s2['rv']['ops'] if a['k'] != 'const']
+                    # (coarse on purpose: if anything on the way cuts a string to a fixed length - `chars().take(n)`, a `truncate`
+                    # of the text before it is sent - the reply is taken as bounded; only an echo with no cut at all is reported)
+                    if hit is not None and any(k_[0] in ('call', 'mutcall') and k_[1].split('::')[-1] in BOUND for k_ in seen_):
+                        hit = None
+                    if hit is not None:
+                        ctx.bad('C11.R3', '%s:error-reply-echoes-unbounded' % h.split('::')[-1],
+                                'the Error reply of %s carries a client-supplied string in full: a path close to the frame limit makes the reply exceed MAX_FRAME, write_frame fails, '
+                                'and the handler ends the session instead of refusing the request on it' % h.split('::')[-1], term_loc(xb, bi))
+
+
 def r34(ctx, F, hub):
+    ctx.attempt(refusal_reply_is_bounded, ctx, F, hub)
     for h in HANDLERS:
         b = F.body(h)
         fl = flow_of(b)
